@@ -9,8 +9,8 @@ Import ListNotations.
 (* serialisation stores into the cache field only (list read from _create_et_xml_element / et_xml_element) *)
 Definition ser_only_cache : bool := match serialise_stores with [s] => String.eqb s "_et_xml_element" | _ => false end.
 
-Definition may_raise (e:eeff) : bool := match e with XRaise | XMatcher | XListRemove | XValidate => true | _ => false end.
-Definition stores (e:eeff) : bool := match e with XRaise | XRead | XValidate => false | _ => true end.
+Definition may_raise (e:eeff) : bool := match e with XRaise | XMatcher | XListRemove | XValidate | XReadMayRaise => true | _ => false end.
+Definition stores (e:eeff) : bool := match e with XRaise | XRead | XReadMayRaise | XValidate => false | _ => true end.
 Inductive eout := EReturned | ERaised.
 (* the log of stores performed; [fails i] says whether the i-th effect (if it may raise) raises *)
 Fixpoint eexec (effs:list eeff) (fails:nat -> bool) (i:nat) (log:list eeff) : eout * list eeff :=
